@@ -16,8 +16,8 @@ RULE = (
     "documented key alone; part finite/repeat/mutate: every admissible configuration of the builder menu (incl. the documented multi-section workflow with 1-4 user-supplied or "
     "generated sections), run twice, built twice, every array reachable from the user's dictionaries copied BEFORE the first library call and "
     "compared bit-for-bit after setup/run/totals/check_partials; part interleave: ALL C(8,4)=70 interleavings of [setup, run, totals, run] "
-    "of two independent Problems for five model pairs, each problem's results compared bit-for-bit with its isolated execution; part fresh / genfresh: every ordered pair of "
-    "configurations (resp. mesh-generator dictionaries) in a FRESH interpreter, second compared with itself alone; part keyseq: all histories of {build, add key, remove key, replace dict} up to depth 3 (T 4); "
+    "of two independent Problems for five model pairs, each problem's results compared bit-for-bit with its isolated execution; part fresh / genfresh / builderfresh: every ordered pair of "
+    "configurations (resp. mesh-generator dictionaries, MPhys builder option sets) in a FRESH interpreter, second compared with itself alone; part keyseq: all histories of {build, add key, remove key, replace dict} up to depth 3 (T 4); "
     "part layout: the user's mesh array Fortran-ordered / strided / read-only gives bit-identical outputs and totals; process-state oracle around every admissible configuration; "
     "non-trivial = distinct set-ups / schedules"
 )
